@@ -401,7 +401,9 @@ def _report_enum(ctx: Ctx, first_days: list[int]) -> None:
             plans_violating_the_property=stt.get("bad", 0))
 
 
-SUBS = {"plan": check_plan, "bound": check_bound, "climb": check_climb,
+EDGE_SIZES = ((126, 1), (128, 1), (130, 1), (64, 2), (66, 2), (66, 3))
+
+SUBS = {"plan_edge": check_plan, "plan": check_plan, "bound": check_bound, "climb": check_climb,
         "enum": check_enum}
 
 
@@ -412,6 +414,12 @@ def run(ctx: Ctx) -> None:
              check_enum)
     if not ctx.warm:
         _report_enum(ctx, first_days)
+    # team / day counts around the int8/int16 edge of the plan storage type
+    # (-n..n) and of the scratch arrays (day numbers)
+    ctx.given("plan_edge", gen_ttp.plan_cases(
+        sizes=EDGE_SIZES, classes=("circle", "circle", "perturbed", "bye",
+                                   "selfplay")), check_plan,
+        quick=10, thorough=16 * 10, shrink=False)
     ctx.given("plan", gen_ttp.plan_cases(), check_plan,
               quick=6000, thorough=16 * 10000)
     ctx.given("bound", gen_ttp.bound_cases(), check_bound,
